@@ -562,6 +562,30 @@ pub fn items(prop: &str, tier: Tier) -> Vec<Item> {
             out.extend(expansion_sweep(&[Term::First, Term::Find, Term::Any], CK_RESULT, tier, false));
             out.extend(engine_big(&[Term::Find, Term::FindIdx], CK_RESULT, tier, &["", "M", "MF", "OF", "XF"]));
             out.extend(engine_fine(&[Term::Find, Term::First, Term::Any, Term::FindIdx], CK_RESULT, tier, &["", "M", "MF", "OF", "XF"]));
+            // chunks of thousands of elements, sparse matches given by position, a preemption right after a pull:
+            // closure entries are scheduling points only for the first two calls of each thread
+            for ch in ["", "M", "F", "MF", "O", "X"] {
+                for t in [Term::Find, Term::FindIdx, Term::Any] {
+                    let cid = chains::CHAINS.iter().position(|c| *c == ch).unwrap();
+                    if !term_ok(Src::SVec, cid, t) {
+                        continue;
+                    }
+                    for (c, n, pp) in [(8192usize, 20_000usize, [5000u32, 8202]), (8192, 20_000, [8191, 8192]), (5000, 12_000, [4500, 5001]), (300, 2_000, [250, 310])] {
+                        if !th && c == 5000 {
+                            continue;
+                        }
+                        for w in [2usize, 3] {
+                            let mut cs = par(case(Src::SVec, 0, ch, t), w, CsSet::N(c));
+                            cs.input = (0..n).map(|i| i as u8).collect();
+                            cs.pred_pos = pp;
+                            cs.cpoints = true;
+                            cs.cp_limit = 2;
+                            out.push(item(cs.clone(), Plan::pb(if w == 2 { 2 } else { 1 }), CK_RESULT));
+                            out.push(item(cs, Plan::db(1), CK_RESULT));
+                        }
+                    }
+                }
+            }
             // *_with_index on the concrete builder types
             for ch in ["", "M", "F", "MF", "MM", "FF"] {
                 // (N, c): full chunks, a short last chunk, a chunk longer than the input
@@ -1095,6 +1119,26 @@ pub fn items(prop: &str, tier: Tier) -> Vec<Item> {
                     }
                 }
             }
+            // millions of elements (chunk sizes beyond 2^20): closure-free count over a range, and quiet map pipelines
+            for (ch, t, quiet) in [("", Term::Count, false), ("M", Term::Count, true), ("M", Term::CollectVec, true), ("M", Term::Reduce, true)] {
+                for c in [(1usize << 20) + 1, 1_500_000] {
+                    for w in [6usize, 7] {
+                        if !th && (quiet && (w == 7 || c == 1_500_000 || t != Term::Count)) {
+                            continue;
+                        }
+                        let n = 3 * c + 7;
+                        let mut cs = par(case(Src::SRange, 0, ch, t), w, CsSet::Exact(c));
+                        cs.input = (0..n).map(|i| i as u8).collect();
+                        cs.quiet = quiet;
+                        out.push(item(cs.clone(), Plan::base_rr(), CK_EXACT));
+                        out.push(item(cs.clone(), Plan::base_rr().with_slow0(2), CK_EXACT));
+                        if !quiet {
+                            out.push(item(cs.clone(), Plan::db(1), CK_EXACT));
+                            out.push(item(cs.clone(), Plan::base_np(), CK_EXACT));
+                        }
+                    }
+                }
+            }
             // few workers, every interleaving: all terminals / kernels
             for (src, known) in [(Src::SVec, true), (Src::SIter, false)] {
                 for ch in KC {
@@ -1356,6 +1400,22 @@ pub fn items(prop: &str, tier: Tier) -> Vec<Item> {
                             c4.fault = Some((0, src_elem(&c4.input, fpos.min(3)).0));
                             out.push(item(c4, Plan::full(), ck));
                         }
+                    }
+                }
+            }
+            // the payload of the panic is not a string: a &'static str and a value of a custom type (panic_any)
+            for (ch, t) in &progs {
+                for payload in [1u8, 2] {
+                    for (w, cs) in [(2usize, CsSet::N(1)), (3, CsSet::N(2))] {
+                        let mut c = par(case(Src::SVec, 4, ch, *t), w, cs);
+                        c.pmask = 1 << 3;
+                        c.fault = Some((0, src_elem(&c.input, 1).0));
+                        c.fault_payload = payload;
+                        out.push(item(c.clone(), Plan::pb(1), ck));
+                        out.push(item(c.clone(), Plan::db(1), ck));
+                        let mut s1 = c.clone();
+                        s1.nt[0] = NtSet::N(1);
+                        out.push(item(s1, Plan::base_np(), ck));
                     }
                 }
             }
